@@ -550,6 +550,15 @@ class Subscription(BaseSubscription):
                 await queue.put((sub_id, event))
         await queue.put((sub_id, None))
 
+    @staticmethod
+    def escape_literal(value):
+        """
+        Escape a string that goes into the statement as a literal:
+        the quote for SQL, and the colon for sqlalchemy.text(), which would
+        take ":name" for a bind parameter (and drops a backslash before a colon)
+        """
+        return value.replace("'", "''").replace(":", "\\:")
+
     def evaluate_filter(self, filter_obj, subwhere):
         if filter_obj.ids is not None:
             if filter_obj.ids:
@@ -608,11 +617,10 @@ class Subscription(BaseSubscription):
                 pstr = []
                 for val in tags:
                     if val:
-                        val = val.replace("'", "''")
-                        pstr.append(f"'{val}'")
+                        pstr.append(f"'{self.escape_literal(val)}'")
                 if pstr:
                     pstr = ",".join(pstr)
-                    tagname = tagname.replace("'", "''")
+                    tagname = self.escape_literal(tagname)
                     subwhere.append(
                         f"id IN (SELECT id FROM tags WHERE name = '{tagname}' AND value IN ({pstr})) "
                     )
